@@ -50,7 +50,7 @@ class Exec(ExprMixin, StmtMixin, CallMixin):
         o = self.obls.get(name)
         if o is None:
             o = self.obls[name] = Obligation(name, self.ct.qual, kind, label, text)
-        if z3.is_true(goal):
+        if z3.is_true(goal) or z3.is_true(z3.simplify(goal)):
             o.add([], z3.BoolVal(True), where)
             return
         o.add(st.pc, goal, where)
@@ -75,6 +75,9 @@ class Exec(ExprMixin, StmtMixin, CallMixin):
             return True
         if z3.is_false(c):
             return False
+        d = self.decided(st, c)
+        if d is not None:
+            return d
         if self.choose_n(2, tag) == 0:
             st.assume(cond)
             return True
